@@ -7,7 +7,7 @@ model  : Model/AspifIn.lean, Model/SmodelsSym.lean, Model/TextIn.lean
 oracle : (1) no crash / sanitizer report / leak; the process or call ends with success or a reported error; (2) the consumer contract
          automaton run on the recorded calls: initProgram first, directives only inside beginStep/endStep, atoms in 1..2^31-1,
          literals non-zero with such an atom, rule-body weights >= 0, enumeration values valid, nothing after an error."""
-from props import progs, c10
+from props import progs, c10, c07
 from vlib import runner
 import subprocess
 ID = "C04"
@@ -47,10 +47,17 @@ ASPIF = [b"asp 1 0 0\n1 0 1 1 0 2 2 -3\n1 1 2 4 5 1 3 2 1 1 -2 2\n2 1 2 1 1 2 -3
 SMODELS = [b"1 2 2 1 3 4\n2 5 3 1 2 2 3 4\n3 2 5 6 1 0 2\n5 7 3 2 1 2 3 1 2\n6 0 2 1 2 3 1 2\n8 2 2 3 1 0 4\n0\n2 a\n3 _heuristic(a,sign,1,2)\n4 _edge(1,2)\n0\nB+\n2\n0\nB-\n1\n0\nE\n5\n0\n1\n",
            b"90 0\n1 2 0 0\n91 3 1\n0\n2 a\n0\nB+\n0\nB-\n0\n1\n90 0\n92 3\n0\n0\nB+\n0\nB-\n0\n1\n", b"0\n0\nB+\n0\nB-\n0\n1\n"]
 
+NUMS = [b"0", b"1", b"2", b"3", b"4", b"5", b"6", b"7", b"8", b"9", b"10", b"11", b"-1", b"-2", b"-3", b"-4", b"2147483647", b"2147483648", b"-2147483648", b"-2147483649", b"4294967295", b"4294967296"]
+
 def mutate(rng, t):
     t = bytearray(t)
     for _ in range(rng.choice([1, 1, 2, 3])):
         k = rng.random(); i = rng.randrange(len(t) + 1)
+        if rng.random() < 0.3:
+            # replace one whole number token by a value at or just beyond the bounds of the small fields (enumerations, counts)
+            toks = [(m.start(), m.end()) for m in __import__("re").finditer(rb"-?[0-9]+", bytes(t))]
+            if toks:
+                a, b = rng.choice(toks); t[a:b] = rng.choice(NUMS); continue
         if k < 0.25 and t: del t[min(i, len(t) - 1)]
         elif k < 0.5 and t: t[min(i, len(t) - 1)] = rng.choice(ALPHA)
         elif k < 0.7: t[i:i] = bytes([rng.choice(ALPHA)])
@@ -59,8 +66,18 @@ def mutate(rng, t):
         else: t[i:i] = bytes(rng.choice(ALPHA) for _ in range(rng.choice([15, 16, 17, 33, 50])))
     return bytes(t)
 
+def smodels_text(rng):
+    """a (mostly) valid smodels program from the C07 generator, clasp extensions in half of them, optionally one field pushed to/over its bound"""
+    ext = rng.random() < 0.6; toks = []
+    for s in range(rng.choice([1, 1, 2]) if ext else 1):
+        if ext and rng.random() < 0.5: toks += [("n", 90), ("n", 0), ("e",)]
+        c07.gen_step(rng, ext, toks)
+    if rng.random() < 0.5: toks = c07.mutate(rng, toks)
+    return c07.render(rng, toks, rng.random() < 0.3)
+
 def gen_input(rng):
     k = rng.random()
+    if 0.5 <= k < 0.62: return smodels_text(rng)
     if k < 0.1: return bytes(rng.randrange(256) for _ in range(rng.choice([0, 1, 2, 5, 20, 60])))
     if k < 0.2: return progs.fuzz_symtab(rng, rng.random() < 0.3)
     if k < 0.3: return bytes(rng.choice(ALPHA) for _ in range(rng.choice([1, 3, 10, 30, 80])))
